@@ -48,6 +48,9 @@ def translate(ctx):
 FUNCS = ['legendre', 'chebyshev', 'poly', 'chebyshev_split']
 FTERM = {'legendre': 'Legendre', 'chebyshev': 'Chebyshev', 'poly': 'Poly', 'chebyshev_split': 'ChebSplit'}
 
+MAX_TERM = 120000
+COQ_TIMEOUT = 150
+
 HEADER = '''From Coq Require Import QArith ZArith List. Import ListNotations.
 From PV Require Import Lib.WLS C13.LinAlg C13.Model. Open Scope Q_scope.'''
 
@@ -423,7 +426,12 @@ def correspond(ctx, proof_ok=True):
             continue
         terms.append((ci, t))
 
-    cc = C.CoqCases(ctx.work, HEADER, 'run_cases', shard=12)
+    # hard caps: no case term above MAX_TERM characters reaches Coq, and no coqc process may run longer than
+    # COQ_TIMEOUT seconds (a runaway exact computation then fails the run quickly instead of stalling it)
+    oversize = [k for k, (_, t) in enumerate(terms) if len(t) > MAX_TERM]
+    if oversize:
+        raise RuntimeError('%d case terms exceed %d characters (generator bug): refusing to evaluate' % (len(oversize), MAX_TERM))
+    cc = C.CoqCases(ctx.work, HEADER, 'run_cases', shard=12, timeout=COQ_TIMEOUT)
     light = [k for k, (_, t) in enumerate(terms) if t.startswith('(CBasis') or t.startswith('(CFit')]
     heavy = [k for k in range(len(terms)) if k not in set(light)]
     verdicts = [None] * len(terms)
